@@ -82,7 +82,7 @@ def reference_write(fmt, records, clock_steps):
             continue   # acknowledged refusal; whether what it left behind hurts later records is decided by reading
         except Exception as e:
             if _is_record(rec):
-                raise
+                raise Violation(f'exception-escaped:{type(e).__name__}', f'{FORMATS[fmt]["writer"]}.write raised {e!r} for a valid record')
             continue   # an object that is no record at all: any refusal will do
         extents.append((start, buf.tell()))
         kept.append(idx)
